@@ -409,9 +409,8 @@ def check_verbatim(doc, chosen, cfg, res, history=None):
         READER[0] += len(tls)
         if any(m[0] == 0 for m in ms) or mk != kept:
             res["disagreements"].append(dict(base, stream="vtt-reader-settings", impl=repr(kept)[:300], model=repr(mk)[:300]))
-        again = oracle_batch([(1213, m[2]) for m in ms if m[0] == 2])
-        if any(a[0] != 2 or a[1] != m[1] for a, m in zip(again, [m for m in ms if m[0] == 2])):
-            res["disagreements"].append(dict(base, stream="vtt-reader-settings-reread", impl="-", model=repr(again)[:300]))
+        if any(m[0] == 2 and m[2] != m[1] for m in ms):
+            res["disagreements"].append(dict(base, stream="vtt-reader-settings-reread", impl="-", model=repr(ms)[:300]))
     if history:
         base["history"] = [[f, list(c)] for f, c in history]
     res["evaluations"] += 1
